@@ -251,9 +251,11 @@ pub fn gen_spec(rng: &mut Rng, p: &Profile) -> Spec {
         let mut wild_path = false;
         if p.wild && with_id && rng.chance(1, 4) {
             // placeholder equal to / prefixed by the previous segment, or in the middle of the path
-            path = match rng.below(3) {
+            path = match rng.below(5) {
                 0 => "/user/{id}".replace("id", "user"),
                 1 => format!("/{}/{{id}}/details", res),
+                2 => format!("/{}/{{item2Id}}", res),
+                3 => format!("/{}/{{type}}", res),
                 _ => "/user/{user_id}".to_string(),
             };
             wild_path = true;
